@@ -200,7 +200,7 @@ pub fn check(sc: &Scenario, res: &RunResult) -> Vec<Violation> {
             None => out.push(v("C18", "handles-missing", "no handle stream".into())),
             Some(hs) => {
                 for f in &w.fds {
-                    if k.closed_fds.contains(&f.fd) || f.stat_fails || f.link_fails {
+                    if k.closed_fds.contains(&f.fd) {
                         continue;
                     }
                     let hits: Vec<&Handle> = hs.iter().filter(|h| h.handle == f.fd as u64).collect();
@@ -209,11 +209,12 @@ pub fn check(sc: &Scenario, res: &RunResult) -> Vec<Violation> {
                         continue;
                     }
                     let h = hits[0];
-                    let want = String::from_utf8_lossy(&f.target.0).into_owned();
+                    // what the kernel would not tell is left blank, the descriptor is listed all the same
+                    let want = if f.link_fails { String::new() } else { String::from_utf8_lossy(&f.target.0).into_owned() };
                     if h.name.as_deref() != Some(want.as_str()) {
                         out.push(v("C18", "handle-target", format!("fd {}: {:?} != link target {:?}", f.fd, h.name, want)));
                     }
-                    if h.attributes != f.mode {
+                    if h.attributes != if f.stat_fails { 0 } else { f.mode } {
                         out.push(v("C18", "handle-mode", format!("fd {}: attributes {:#o} != st_mode {:#o}", f.fd, h.attributes, f.mode)));
                     }
                 }
